@@ -51,7 +51,6 @@ def on_run(rec, run, w, size):
 def on_case(rec, case):
     rec.count("traces")
     rec.count("transitions", len(case.log.hits))
-    rec.mark("states", case.data)
     checked, deep = monitors.c04(rec, case.tree, case.log, case.witness(), case.size)
     rec.count("hits_checked", checked)
     rec.mark("outcomes", trees.shape(case.tree))
